@@ -5,8 +5,8 @@ ROOT = os.path.dirname(os.path.dirname(os.path.abspath(__file__)))
 
 CLAIMED = {
  "C09": dict(cat="exploration", ref="4 (C09), 2.2, 2.4",
-   text="Seeded search over thread counts 1..32 and over interleavings of the simulated OpenMP runtime (every fork, barrier, critical, single is a scheduler decision; strategies canonical/reverse/random/PCT/starve) for ten component families; oracles: bitwise equality across schedules at a fixed thread count, bitwise/rounding equality against the nt=1 (or nt=17) run by result class, level-scheduled Gauss-Seidel sweep == serial sweep, parallel ILU solve == serial solve up to rounding. Sampling, not proof: the right level for a property quantified over all schedules of a real OpenMP program.",
-   note="trusted: the fiber runtime reproduces libgomp's static schedules bit for bit (checked against real libgomp at nt=1,2,4,5,17); sequential consistency; team size always as requested",
+   text="Seeded search over thread counts 1..32 and over interleavings of the simulated OpenMP runtime (every fork, barrier, critical, single is a scheduler decision; strategies canonical/reverse/random/PCT/starve) for ten component families; oracles: bitwise equality across schedules at a fixed thread count, bitwise/rounding equality against the nt=1 (or nt=17) run by result class, level-scheduled Gauss-Seidel sweep == serial sweep, parallel ILU solve == serial solve up to rounding. A second stage compiles the same check with -fsanitize=thread instrumentation but links the simulator's own callbacks: every load/store inside a parallel region becomes a seeded preemption point and an event for a happens-before conflict detector (fork/join, barrier epochs, critical section, free->reuse edges); a candidate pair is confirmed by re-running the world with the two accesses forced into the opposite order and is a violation only if the result changes. Sampling, not proof: the right level for a property quantified over all schedules of a real OpenMP program.",
+   note="trusted: the fiber runtime reproduces libgomp's static schedules bit for bit (checked against real libgomp at nt=1,2,4,5,17); sequential consistency (weak-memory reorderings are not explored); team size always as requested; accesses inside libc memcpy/memset are not instrumented",
    technique="deterministic simulation: seeded schedule search over a simulated OpenMP runtime (fibers), differential oracles across thread counts and schedules"),
  "C10": dict(cat="exploration", ref="4 (C10), 2.6",
    text="Heap-history differential: every generated valid world (incl. the degenerate inputs the statement lists) is run under a clean and three seeded dirty simulated heaps (fill 00/FF/AA/sNaN/random, LIFO recycling of stale blocks, shifted addresses, dirtied stack, 0-3 unrelated pre-history solves) and the complete output (hierarchy summary, preconditioner action, solution, iterations, residual, exception) must be bitwise identical; the simulated allocator's ledger must balance (no leak, no double/foreign delete - also for the zero-copy adapter); the same worlds run under ASan+UBSan with varying malloc fill. Sampling, not proof.",
